@@ -1634,6 +1634,15 @@ Proof.
   specialize (H n (or_introl eq_refl)). unfold write_spec. destruct (nop n); try discriminate H; reflexivity.
 Qed.
 
+Lemma write_skip_nowr v ns : (forall n, In n ns -> forall m, nop n <> OpMemWr m) ->
+  forall ms, fold_left (write_spec v) ns ms = ms.
+Proof.
+  induction ns as [|n r IH]; intros H ms; cbn [fold_left]; [reflexivity|].
+  rewrite IH by (intros; apply H; right; assumption).
+  specialize (H n (or_introl eq_refl)). unfold write_spec. destruct (nop n); try reflexivity.
+  exfalso. eapply H. reflexivity.
+Qed.
+
 Section FlatState.
 Variable merge : bool.
 Variable nl : netlist.
@@ -1663,7 +1672,9 @@ Proof.
   induction n as [|n IH]; intros s rg H; cbv zeta; cbn [seq map fold_left].
   - split; [intros; lia|reflexivity].
   - destruct (H s ltac:(lia)) as [W0 V0].
-    unfold regnext_spec at 2. cbn [nop nargs ndest arg nth]. rewrite W0, V0, b2z_mod2'.
+    assert (Hhd : regnext_spec nl' vf rg (mkNet OpReg [bid src s] (bid w s)) = upd rg (bid w s) (b2z (bv src s))).
+    { unfold regnext_spec. cbn [nop nargs ndest arg nth]. rewrite W0, V0, b2z_mod2'. reflexivity. }
+    rewrite Hhd.
     set (rg1 := upd rg (bid w s) (b2z (bv src s))).
     destruct (IH (S s) rg1) as [I1 I2]. { intros i Hi. apply H. lia. }
     cbv zeta in I1, I2. split.
@@ -1680,7 +1691,7 @@ Lemma seq_regs : forall ns base rg grg,
   RR rg grg ->
   RR (fold_left (regnext_spec nl' vf) (fst (emit_gnets nl (map (synth_net nl) ns) base)) rg)
      (fold_left (gregnext nl bv) ns grg).
-Proof.
+Proof. pose proof Hids as Hids_u. pose proof Hwidths as Hwidths_u. pose proof merge as merge_u.
   induction ns as [|n r IH]; intros base rg grg Hall HR; [exact HR|].
   destruct (Hall n (or_introl eq_refl)) as (Hc & Hin & Har & Hso).
   cbn [map]. rewrite (emit_gnets_cons nl). cbn [fst fold_left]. rewrite fold_left_app.
@@ -1711,7 +1722,7 @@ Lemma seq_mems : forall ns base ms gms,
   (forall m a, ms m a = gms m a) ->
   forall m a, fold_left (write_spec vf) (fst (emit_gnets nl (map (synth_net nl) ns) base)) ms m a
             = fold_left (gwrite nl bv) ns gms m a.
-Proof.
+Proof. pose proof Hids as Hids_u. pose proof Hwidths as Hwidths_u. pose proof merge as merge_u.
   induction ns as [|n r IH]; intros base ms gms Hall Hpost H0; [exact H0|].
   destruct (Hall n (or_introl eq_refl)) as (Hc & Hin & Har & Hso).
   cbn [map] in *. rewrite (emit_gnets_cons nl). cbn [fst fold_left]. rewrite fold_left_app.
@@ -1720,7 +1731,8 @@ Proof.
   unfold synth_net, gwrite in *. unfold net_synth_ok in Hso.
   destruct (nop n) eqn:Eop; try discriminate Hc; cbn [emit_gnet fst seg_post] in *.
   - (* registers: no memory effect *)
-    rewrite write_skip_reg. exact H0.
+    rewrite write_skip_nowr; [exact H0|].
+    intros x Hx m'. apply in_map_iff in Hx. destruct Hx as [i [<- _]]. cbn [nop]. discriminate.
   - (* the write port *)
     cbn [fold_left]. unfold write_spec at 1 2 3. unfold cat_net. cbn [nop nargs arg nth].
     cbn [arity_ok] in Har. apply Nat.eqb_eq in Har.
@@ -1733,3 +1745,147 @@ Proof.
 Qed.
 
 End FlatState.
+
+(* ------------------------------------------------------------------ one cycle, every cycle *)
+
+Section FlatThm.
+Variable merge : bool.
+Variable nl : netlist.
+Hypothesis Hidsb : ids_okb nl = true.
+Hypothesis Hwf : wfb nl = true.
+Hypothesis Hsy : synth_okb nl = true.
+
+Local Notation bid := (bid nl).
+Local Notation nl' := (flatten merge nl).
+Local Notation wnat := (wnat nl).
+
+Lemma Hids : inc 0 (wires nl).
+Proof. apply incb_inc. exact Hidsb. Qed.
+
+Lemma Hw : forallb (fun x => 0 <=? wwidth x) (wires nl) = true.
+Proof. apply (wfb_parts nl Hwf). Qed.
+
+Lemma in_nets_comb x : In x (in_nets merge nl) -> is_comb (nop x) = true.
+Proof.
+  unfold in_nets. destruct merge; [|intros []]. intro H. apply in_flat_map in H.
+  destruct H as [y [_ H]]. apply in_map_iff in H. destruct H as [i [<- _]]. reflexivity.
+Qed.
+
+Lemma out_nets_comb x : In x (out_nets merge nl) -> is_comb (nop x) = true.
+Proof.
+  unfold out_nets. destruct merge; [|intros []]. intro H. apply in_map_iff in H.
+  destruct H as [y [<- _]]. reflexivity.
+Qed.
+
+(* what one cycle of the flattened block establishes *)
+Definition cycle_ok (vf : wid -> Z) (bv : wid -> nat -> bool) : Prop :=
+  Inv nl (rdy_final nl) vf bv
+  /\ (merge = true -> forall x, In x (wires nl) -> is_out x = true ->
+        vf (wname x) = bits_val bv (wname x) (wnat (wname x))).
+
+Theorem flat_step st gst ins : Rf nl st gst -> legal_ins nl ins ->
+  cycle_ok (fst (step nl' 0 st (flat_ins nl ins))) (fst (gstep nl gst ins))
+  /\ Rf nl (snd (step nl' 0 st (flat_ins nl ins))) (snd (gstep nl gst ins)).
+Proof.
+  intros HR Hins. pose proof Hids as Hi. pose proof Hw as Hww.
+  destruct (wfb_parts nl Hwf) as (_ & _ & Hnets & Hseq & Hall).
+  destruct (comb_phase merge nl Hi Hwf Hsy st gst ins HR) as (C1 & C2 & C3).
+  unfold step. cbn [fst snd].
+  change (base_val nl' 0 st (flat_ins nl ins)) with (vf0 merge nl st ins).
+  rewrite (comb_eq merge nl st ins).
+  set (vF := vfF merge nl st ins) in *. set (bv := bvF nl gst ins) in *.
+  change (fst (gstep nl gst ins)) with bv.
+  split; [split; assumption|].
+  assert (Hseqall : forall n, In n (seq_nets nl) -> is_comb (nop n) = false
+             /\ (forall a, In a (nargs n) -> In a (rdy_final nl))
+             /\ arity_ok (nop n) (length (nargs n)) = true /\ net_synth_ok nl n = true).
+  { intros n Hn. unfold seq_nets in Hn. apply filter_In in Hn. destruct Hn as [Hn Hc].
+    apply negb_true_iff in Hc. rewrite forallb_forall in Hseq. specialize (Hseq n Hn). rewrite Hc in Hseq.
+    apply andb_true_iff in Hseq. destruct Hseq as [Ha Har]. split; [assumption|]. split; [|split; [assumption|]].
+    - intros a Hain. apply mem_in_In. rewrite forallb_forall in Ha. auto.
+    - unfold synth_okb in Hsy. rewrite forallb_forall in Hsy. auto. }
+  assert (Hcomball : forall n, In n (comb_nets nl) -> is_comb (nop n) = true).
+  { intros n Hn. unfold comb_nets in Hn. apply filter_In in Hn. tauto. }
+  unfold gstep. cbn [snd]. change (fold_left (gexec nl gst) (nets nl) (gbase nl gst ins)) with bv.
+  rewrite (flatten_nets merge nl). unfold osynth. rewrite (emit_gnets_app nl). cbn [fst].
+  rewrite !fold_left_app.
+  split; cbn [sregs smems gregs gmems].
+  - (* registers *)
+    rewrite (regnext_skip nl' vF (in_nets merge nl)) by (apply in_nets_comb).
+    rewrite (regnext_skip nl' vF (fst (emit_gnets nl (map (synth_net nl) (comb_nets nl)) (T0 nl))))
+      by (intros x Hx; eapply comb_gnets_nets; eassumption).
+    rewrite (regnext_skip nl' vF (out_nets merge nl)) by (apply out_nets_comb).
+    replace (fold_left (gregnext nl bv) (nets nl) (gregs gst))
+      with (fold_left (gregnext nl bv) (seq_nets nl) (gregs gst)).
+    + exact (seq_regs merge nl Hi Hww vF bv (rdy_final nl) C1 (seq_nets nl)
+               (T0 nl + gnets_size (map (synth_net nl) (comb_nets nl))) (sregs st) (gregs gst) Hseqall (proj1 HR)).
+    + unfold seq_nets. apply fold_filter_id. intros rg n Hc. apply negb_false_iff in Hc.
+      unfold gregnext. destruct (nop n); try discriminate Hc; reflexivity.
+  - (* memories *)
+    rewrite (write_skip vF (in_nets merge nl)) by (apply in_nets_comb).
+    rewrite (write_skip vF (fst (emit_gnets nl (map (synth_net nl) (comb_nets nl)) (T0 nl))))
+      by (intros x Hx; eapply comb_gnets_nets; eassumption).
+    rewrite (write_skip vF (out_nets merge nl)) by (apply out_nets_comb).
+    replace (fold_left (gwrite nl bv) (nets nl) (gmems gst))
+      with (fold_left (gwrite nl bv) (seq_nets nl) (gmems gst)).
+    + exact (seq_mems merge nl Hi Hww vF bv (rdy_final nl) C1 (seq_nets nl)
+               (T0 nl + gnets_size (map (synth_net nl) (comb_nets nl))) (smems st) (gmems gst) Hseqall C2 (proj2 HR)).
+    + unfold seq_nets. apply fold_filter_id. intros ms n Hc. apply negb_false_iff in Hc.
+      unfold gwrite. destruct (nop n); try discriminate Hc; reflexivity.
+Qed.
+
+Theorem flat_run : forall inss st gst, Rf nl st gst -> Forall (legal_ins nl) inss ->
+  Forall2 cycle_ok (fst (run nl' 0 st (map (flat_ins nl) inss))) (fst (grun nl gst inss)).
+Proof.
+  induction inss as [|ins rest IH]; intros st gst HR Hins; cbn [map run grun]; [constructor|].
+  inversion Hins as [|? ? Hi Hrest]; subst.
+  destruct (flat_step st gst ins HR Hi) as [Hc HR1].
+  specialize (IH _ _ HR1 Hrest). unfold gstep in *. unfold step in *. cbn [fst snd] in *.
+  match goal with |- context [run nl' 0 ?s (map _ rest)] => destruct (run nl' 0 s (map (flat_ins nl) rest)) as [vs st2] end.
+  match goal with |- context [grun nl ?s rest] => destruct (grun nl s rest) as [bvs gst2] end.
+  cbn [fst] in *. constructor; assumption.
+Qed.
+
+Lemma flat_state_related gst : Rf nl (flat_state nl gst) gst.
+Proof.
+  pose proof Hids as Hi. pose proof Hw as Hww.
+  split; [|reflexivity]. intros r i Hr Hlt. cbn [flat_state sregs].
+  destruct (bit_static merge nl Hi Hww r i Hlt) as (_ & _ & _ & _ & _ & _ & _ & P & Ik).
+  destruct (bid_decode nl Hi Hww r i ltac:(lia) Ik) as [D1 D2]. rewrite D1, D2, Nat2Z.id. reflexivity.
+Qed.
+
+(* bit i of original wire w as carried by the flattened block *)
+Definition flat_bit (vf : wid -> Z) (w : wid) (i : nat) : bool := negb (vf (bid w i) =? 0).
+
+(* C03_simulation against Sem.run of the synthesized NETLIST *)
+Theorem flatten_simulation regmap memmap inss :
+  legal_init nl regmap -> Forall (legal_ins nl) inss ->
+  Forall2 (fun v vf => forall x, In x (wires nl) ->
+             v (wname x) = to_Z (map (flat_bit vf (wname x)) (seq 0 (wnat (wname x))))
+             /\ (merge = true -> is_out x = true -> vf (wname x) = v (wname x)))
+    (fst (run nl 0 (init_state nl 0 regmap memmap) inss))
+    (fst (run nl' 0 (flat_state nl (ginit nl regmap memmap)) (map (flat_ins nl) inss))).
+Proof.
+  intros Hl Hi.
+  pose proof (synth_simulation nl regmap memmap inss Hwf Hsy Hl Hi) as H1.
+  pose proof (flat_run inss _ _ (flat_state_related (ginit nl regmap memmap)) Hi) as H2.
+  destruct (wfb_parts nl Hwf) as (_ & _ & _ & _ & Hall).
+  revert H1 H2.
+  generalize (fst (run nl 0 (init_state nl 0 regmap memmap) inss)).
+  generalize (fst (grun nl (ginit nl regmap memmap) inss)).
+  generalize (fst (run nl' 0 (flat_state nl (ginit nl regmap memmap)) (map (flat_ins nl) inss))).
+  intros vfs bvs vs H1. revert vfs. induction H1 as [|v bv vs' bvs' Hv Hrest IH]; intros vfs H2.
+  - inversion H2. constructor.
+  - inversion H2 as [|vf ? vfs' ? Hc Hcr]; subst. constructor; [|apply IH; assumption].
+    intros x Hx. destruct (Hv x Hx) as [E _]. destruct Hc as [CI CO].
+    assert (Hr : In (wname x) (rdy_final nl)).
+    { rewrite forallb_forall in Hall. apply mem_in_In. apply Hall. assumption. }
+    assert (Eb : map (flat_bit vf (wname x)) (seq 0 (wnat (wname x))) = map (bv (wname x)) (seq 0 (wnat (wname x)))).
+    { apply map_ext_in. intros i Hin. apply in_seq in Hin. unfold flat_bit. rewrite (CI _ Hr i) by lia.
+      destruct (bv (wname x) i); reflexivity. }
+    split.
+    + rewrite E, Eb. reflexivity.
+    + intros Hm Ho. rewrite (CO Hm x Hx Ho). symmetry. exact E.
+Qed.
+
+End FlatThm.
